@@ -54,6 +54,7 @@ MutinyStream<'a, ItemType, ChannelConsumerType, DerivedItemType> {
 
     #[inline(always)]
     fn poll_next(self: Pin<&mut Self>, cx: &mut Context<'_>) -> Poll<Option<Self::Item>> {
+        vp!("ms.poll", self.stream_id);
         let event = self.events_source.consume(self.stream_id);
         match event {
             Some(_) => Poll::Ready(event),
@@ -75,6 +76,7 @@ impl<'a, ItemType:            Debug + Send + Sync,
 Drop
 for MutinyStream<'a, ItemType, ChannelConsumerType, DerivedItemType> {
     fn drop(&mut self) {
+        vp!("ms.drop", self.stream_id);
         self.events_source.drop_resources(self.stream_id);
     }
 }
